@@ -25,7 +25,7 @@ for prop in sorted(os.listdir("/tmp/seed")):
         try:
             run = re.search(r"-run\s+(\S+)", m["demo_cmd"]).group(1)
             demo_dir = m["demo_dir"].strip("./") or "."
-            conf = seedtest.confirm(prop, patch, demo, demo_dir, run)
+            conf = seedtest.confirm(prop, patch, demo, demo_dir, run, race="-race" in m.get("demo_cmd", ""))
         except Exception as ex:  # noqa
             conf = {"confirmed": False, "error": str(ex)}
             demo_dir = "?"
